@@ -1,6 +1,7 @@
 package main
 
 import (
+	"math"
 	"bytes"
 	"context"
 	"encoding/json"
@@ -69,7 +70,7 @@ func libGeometry(g geom.Geometry, gs *gridSpec, ids []int, id int, cfg snap.Conf
 func checkC13(e *env) {
 	r := e.res
 	r.Rule = "the real binary (go build -tags verif of /repo) on random source GeoPackages: 1-3 tables (POLYGON, MULTIPOLYGON with 1-3 parts, POINT/LINESTRING/MULTIPOINT with some empty geometries, GEOMETRY holding polygons among other kinds), 0-25 features each, polygons from the valid families in a NetherlandsRDNewQuad window (one run in eight: WebMercatorQuad ids 19-20, the deepest levels), near-duplicates of a polygon 2e-5 apart " +
-		"plus sub-pixel polygons that collapse and (with -iog) polygons outside the grid, 1-5 attribute columns with NULLs, geometry column anywhere; id lists of 1-3 ids, page sizes 1..7 and 1000, all keep/reverse/ignore flags (each option by its long name, its alias or its environment variable), " +
+		"plus sub-pixel polygons that collapse, sub-pixel polygons astride a corner of four pixels (which do not) and (with -iog) polygons outside the grid, 1-5 attribute columns with NULLs, geometry column anywhere; id lists of 1-3 ids, page sizes 1..7 and 1000, all keep/reverse/ignore flags (each option by its long name, its alias or its environment variable), " +
 		"target paths over a safe alphabet (dots in directory and file names, no extension), with pre-existing target files of other content when overwrite is on. Expected content is computed by calling snap.SnapPolygon in-process. " +
 		"Non-trivial = at least two ids and a polygon table where some feature is omitted or becomes a multipolygon for some id; distinct by command line + source content."
 	bin := texelBin()
@@ -133,6 +134,13 @@ func checkC13(e *env) {
 							x, y := w.baseX+e.rng.Float64()*100, w.baseY+e.rng.Float64()*100
 							d := pix / 50
 							return geom.Polygon{{{x, y}, {x + d, y}, {x, y + d}}}
+						case 2: // smaller than a pixel, but astride a corner of four pixels of the first requested id: it does not collapse there
+							if ebl, _, err := rd.tms.MatrixBoundingBox(0); err == nil {
+								kx := math.Floor((w.baseX-ebl[0])/pix) + float64(2+e.rng.Intn(10))
+								ky := math.Floor((w.baseY-ebl[1])/pix) + float64(2+e.rng.Intn(10))
+								cx, cy, h := ebl[0]+kx*pix, ebl[1]+ky*pix, 0.4*pix
+								return geom.Polygon{{{cx - h, cy - h}, {cx + h, cy - h}, {cx + h, cy + h}, {cx - h, cy + h}}}
+							}
 						case 1:
 							if cfg.IgnoreOutsideGrid { // outside the extent of the set
 								return geom.Polygon{{{-4e8, 0}, {-3.99e8, 0}, {-3.99e8, 1000}}}
